@@ -749,6 +749,10 @@ static void run(int tier, long idx, vf_result *r)
 
     unsigned long mark = vf_exec_begin();
     g_corr_dev = weight && fam == F_CORR;
+    /* the TRL families with the second reflect: receivers behind 54 dB of
+       loss, every reading of the order of 2e-3 */
+    cs_receiver_gain = (fam == F_TRL || fam == F_TRLM || fam == F_TRLX) &&
+	(ri & 1) ? 2e-3 : 0.0;
     build(&sc, fam, type, net, nf, guess, li, ri, unk, &nunk);
     {
 	long double margin; int eqs, u;
